@@ -159,6 +159,17 @@ def _b_voigt(rng, thorough):
         comp = D.elasticity_components(np.asarray(va))
         keys = sorted(k_ for k_ in comp if k_ != "hexagonal_axis")
         out.append(("elasticity_components", inp, _flat([comp[k_] for k_ in keys])))
+    # single-crystal tensors (orthorhombic) in rotated frames: the eigenvector pairing inside elasticity_components goes through the
+    # compiled smallest_angle with cosines at +-1 up to rounding
+    from pydrex import tensors as T
+    for k in range(6 if not thorough else 40):
+        base = st.olivine if k % 2 == 0 else st.enstatite
+        R = _rot(rng, 1)[0] if k % 3 else np.eye(3)[[1, 2, 0]]
+        Cr = T.elastic_tensor_to_voigt(T.rotate(T.voigt_to_elastic_tensor(base), R))
+        comp = D.elasticity_components(np.asarray([Cr]))
+        keys = sorted(k_ for k_ in comp if k_ != "hexagonal_axis")
+        out.append(("elasticity_components[rotated single crystal]", {"phase": "olivine" if k % 2 == 0 else "enstatite", "R": R.tolist()},
+                    _flat([comp[k_] for k_ in keys] + [np.abs(comp["hexagonal_axis"])])))
     return out
 
 
